@@ -58,10 +58,24 @@ def main():
     rng = random.Random(seed)
     import shapes
     shapes.reseed(seed)
+    ncorpus = 0
     if replay:
         scens = P.from_replay(json.load(open(replay)))
     else:
-        scens = P.gen(tier, rng)
+        # the regression corpus runs first: scenarios on which a seeded change of /repo made this property fail
+        # (corpus/<pid>/*.json, harvested by tools/harvest.py); on the unchanged tree they behave like any other scenario
+        scens = []
+        cdir = os.path.join(hl.VERIF, "corpus", pid)
+        if os.path.isdir(cdir) and hasattr(P, "from_replay"):
+            for fn in sorted(os.listdir(cdir)):
+                try:
+                    for sc_ in P.from_replay(json.load(open(os.path.join(cdir, fn)))):
+                        sc_.sid = "k_" + fn.split(".")[0].replace("-", "_")[:40] + "_" + str(len(scens))
+                        scens.append(sc_)
+                except Exception as ex:          # a corpus entry that no longer parses is reported, not fatal
+                    notes.append(f"corpus entry {fn} skipped: {ex}")
+        ncorpus = len(scens)
+        scens += P.gen(tier, rng)
     res, herr = hl.run_harness(driver, scens, pid)
     if herr:
         notes.append(f"harness shard errors: {herr[:2]}")
@@ -268,6 +282,7 @@ def main():
              "scenarios_meeting_whole_history_theorem_hypotheses"): (f"{covered[1]} of {covered[0]}") if covered[0] else "n/a",
             **({"scenarios_meeting_the_hypotheses_of_C01_every_schedule": f"{covered2[1]} of {covered2[0]}"} if covered2[0] else {}),
             "variants_tried_after_a_mismatch": deep_tried,
+            "regression_corpus_scenarios": ncorpus,
             "agree_only_up_to_release_order_within_runs": len(tolerated),
             "compile_time_corpus_offending_programs_accepted": len(static_accepted),
             "framework_errors": len(framework), "exhaustive": bool(getattr(P, "EXHAUSTIVE", {}).get(tier, False)),
